@@ -14,8 +14,7 @@ RULE = ("scenarios (random API programs with scripted re-entrant callbacks, see 
 ASSUME = ["red-zone tools miss intra-object overflows and reuse after quarantine; the accounting allocator narrows the latter "
           "for the library's own blocks", "documented preconditions are respected by the generators (DESIGN.md §2)",
           "gcc ASan/UBSan/LSan runtimes", "VERIF_SEED"]
-KNOWN = {"task_hostile": "C04/known:task-outlives-its-source",
-         "restart_in_stop": "C04/known:restart-from-own-on_stop-during-deregistration"}
+KNOWN = {"task_hostile": "C04/known:task-outlives-its-source"}
 
 
 def oracle(case):
